@@ -183,6 +183,12 @@ EDITS = [
  ('loop-flag-reset-after-release', 'C04', 'agent/scheduler/base.py',
   "            r, a = self._unschedule_completed()\n            if not resources and r:\n                resources = True\n            active += int(a)",
   "            r, a = self._unschedule_completed()\n            if not resources and r:\n                resources = True\n            active += int(a)\n            if r_wait is False and r_inc is False:\n                resources = False", 'C0'),
+ ('bf-readd-resets-books', 'C12', 'tmgr/scheduler/backfilling.py',
+  "                if self._pilots[pid].get('info'):\n", "                if False:\n", 'C12'),
+ ('bf-inner-check-dropped', 'C12', 'tmgr/scheduler/backfilling.py',
+  "                        if info['used'] >= info['hwm']:\n                            pids.remove(pid)\n", "", 'C12'),
+ ('bf-done-counted-twice', 'C12', 'tmgr/scheduler/backfilling.py',
+  "                if uid in info['done']:\n                    # we don't need further state udates\n                    self._log.debug('upd task %s in done', uid)\n                    continue\n", "", 'C12'),
  ('master-exit-none-done', 'C05', 'raptor/master.py',
   "                if ret is None:\n                    ret = -1", "                if ret is None:\n                    ret = 0", '_result_cb'),
  ('agent-advance-pushes-failed', 'C05', 'utils/component.py',
